@@ -14,6 +14,9 @@
 #include "aligned_allocator.hpp"
 #include "allocator_storage.hpp"
 #include "fallback_allocator.hpp"
+#include "heap_allocator.hpp"
+#include "memory_pool.hpp"
+#include "memory_stack.hpp"
 #include "memory_resource_adapter.hpp"
 #include "segregator.hpp"
 #include "smart_ptr.hpp"
@@ -509,6 +512,131 @@ static void d24_case()
     TRACKLOG.clear();
 }
 
+// block-level tracking (tracked_block_allocator / deeply_tracked_allocator): growth and shrinking events against the
+// calls that reach the upstream allocator -- every successful block operation is seen exactly once, with its address and size
+struct BlkEvent
+{
+    char        kind; // 'g' growth / allocation, 's' shrinking / deallocation
+    void*       p;
+    std::size_t size;
+    bool        operator==(const BlkEvent& o) const
+    {
+        return kind == o.kind && p == o.p && size == o.size;
+    }
+};
+static std::vector<BlkEvent> UPLOG, BTRACK;
+struct CountingRaw
+{
+    using is_stateful = std::false_type;
+    void* allocate_node(std::size_t size, std::size_t align)
+    {
+        void* p = heap_allocator{}.allocate_node(size, align);
+        UPLOG.push_back({'g', p, size});
+        return p;
+    }
+    void deallocate_node(void* p, std::size_t size, std::size_t align) noexcept
+    {
+        UPLOG.push_back({'s', p, size});
+        heap_allocator{}.deallocate_node(p, size, align);
+    }
+};
+struct BTracker : Tracker
+{
+    void on_allocator_growth(void* p, std::size_t size) noexcept
+    {
+        BTRACK.push_back({'g', p, size});
+    }
+    void on_allocator_shrinking(void* p, std::size_t size) noexcept
+    {
+        BTRACK.push_back({'s', p, size});
+    }
+};
+static void block_tracking_case(Rng& g, bool thorough)
+{
+    auto same = [](const char* what, std::size_t skip_first, std::size_t skip_last) {
+        std::vector<BlkEvent> up(UPLOG.begin() + std::min(skip_first, UPLOG.size()), UPLOG.end());
+        for (std::size_t i = 0; i < skip_last && !up.empty(); ++i)
+            up.pop_back();
+        if (!(up == BTRACK))
+            fail(fmt("%s: tracker saw %zu block events, upstream served %zu (first difference at %zu)", what, BTRACK.size(),
+                     up.size(), (std::size_t)(std::mismatch(up.begin(), up.begin() + std::min(up.size(), BTRACK.size()), BTRACK.begin()).first - up.begin())));
+    };
+    for (int round = 0; round < (thorough ? 12 : 4); ++round)
+    {
+        UPLOG.clear();
+        BTRACK.clear();
+        {
+            using BA = tracked_block_allocator<BTracker, growing_block_allocator<CountingRaw>>;
+            memory_stack<BA> st(512, BTracker{});
+            std::vector<memory_stack<BA>::marker> ms;
+            for (int i = 0; i < 60; ++i)
+            {
+                unsigned r = g.below(10);
+                if (r < 6)
+                    st.allocate(1 + g.below(300), 8);
+                else if (r < 7)
+                    ms.push_back(st.top());
+                else if (r < 9 && !ms.empty())
+                {
+                    st.unwind(ms.back());
+                    ms.pop_back();
+                }
+                else
+                    st.shrink_to_fit();
+                ++n_ops;
+                same("tracked_block_allocator under memory_stack", 0, 0);
+            }
+        }
+        same("tracked_block_allocator under memory_stack (after destruction)", 0, 0);
+        if (UPLOG.size() % 2 != 0)
+            fail("tracked_block_allocator: blocks not all released");
+        UPLOG.clear();
+        BTRACK.clear();
+        {
+            using BA = tracked_block_allocator<BTracker, growing_block_allocator<CountingRaw>>;
+            memory_pool<node_pool, BA> pool(16 + 8 * g.below(4), 256, BTracker{});
+            std::vector<void*>         live;
+            for (int i = 0; i < 80; ++i)
+            {
+                if (g.below(3) || live.empty())
+                    live.push_back(pool.allocate_node());
+                else
+                {
+                    pool.deallocate_node(live.back());
+                    live.pop_back();
+                }
+                ++n_ops;
+                same("tracked_block_allocator under memory_pool", 0, 0);
+            }
+        }
+        same("tracked_block_allocator under memory_pool (after destruction)", 0, 0);
+        UPLOG.clear();
+        BTRACK.clear();
+        {
+            // deeply tracked: the block obtained in the constructor precedes the tracker (documented), every later one is seen
+            using DT = deeply_tracked_allocator<BTracker, memory_stack<growing_block_allocator<CountingRaw>>>;
+            DT a(BTracker{}, DT::allocator_type(512));
+            std::size_t before = UPLOG.size();
+            auto        m      = a.get_allocator().top();
+            for (int rep = 0; rep < 3; ++rep)
+            {
+                for (int i = 0; i < 20; ++i)
+                {
+                    a.allocate_node(1 + g.below(300), 8);
+                    ++n_ops;
+                    same("deeply_tracked_allocator<memory_stack>", before, 0);
+                }
+                a.get_allocator().unwind(m);
+                a.get_allocator().shrink_to_fit();
+                same("deeply_tracked_allocator<memory_stack> after shrink_to_fit", before, 0);
+            }
+        }
+    }
+    UPLOG.clear();
+    BTRACK.clear();
+    TRACKLOG.clear();
+}
+
 int main(int argc, char** argv)
 {
     bool               thorough = argc > 1 && std::atoi(argv[1]) != 0;
@@ -601,6 +729,7 @@ int main(int argc, char** argv)
     mra_cases<L0a>("L 0 a", g);
     mra_cases<L0n>("L 0 n", g);
     d24_case();
+    block_tracking_case(g, thorough);
     for (auto& f : failures)
         std::printf("oracle-fail %s\n", f.c_str());
     std::printf("summary ops=%ld ok=%ld null=%ld throw=%ld grow=0 dealloc=%ld oracle_checks=%ld\n", n_ops, n_ok, n_null, n_throw, n_dealloc, n_ops);
